@@ -48,7 +48,7 @@ def obligations(tier):
         name = "sections.%03d." % idx + "+".join(("N:" if named[k] else "") + shapes[k][0] for k in range(n))
         loops = {"load_bss_data_section#0": n + 2, "load_bss_data_section#1": n + 2,
                  "MIR_link#0": 3, "MIR_link#1": n + 2, "MIR_link#2": 3, "MIR_link#3": n + 2, "MIR_link#4": 3, "MIR_link#5": n + 2,
-                 "memset#0": 4, "memset#1": 12, "memmove#0": 52, "memmove#1": 52, "memcpy#0": 4, "memcpy#1": 20, "h_ledger_find#0": 8}
+                 "remove_module#0": n + 2, "h_ledger_live#0": 8, "memset#0": 4, "memset#1": 12, "memmove#0": 52, "memmove#1": 52, "memcpy#0": 4, "memcpy#1": 20, "h_ledger_find#0": 8}
         obs.append(Ob(name, "C14/sections.c", defs=["H_NITEMS=%d" % n, "H_CFG=" + ",".join(cfg)],
                       loops=loops, unwind=4, unwindset={"harness.%d" % i: 52 for i in range(12)}, checks="memsafe-noptr" if any(sh[1] == 2 for sh in shapes) else "memsafe-nopo", timeout=600, object_bits=12,
                       sample="run of items [%s] (N: = named), ref targets %s; payload bytes, bss garbage, 64-bit ref displacements and "
